@@ -318,4 +318,25 @@ PROPERTIES = {
         "trusted": COMMON_TRUST[:3] + ["assumed numpy contracts (specs/general.py): np.max, np.bincount, np.unique, np.nansum, "
                                        "np.sum, elementwise arithmetic and in-place column division of 2-D arrays"],
     },
+    "C17": {
+        "functions": ["opfython.core.subgraph.Subgraph.mark_nodes", SUP + "predict", SUP + "prune", SUP + "fit"],
+        "lemmas": ["inj_card", "pigeonhole"],
+        "files": ["opfython/models/supervised.py", "opfython/core/subgraph.py", "opfython/core/node.py", "opfython/math/random.py"],
+        "bounded": "bounded.c17",
+        "level": "other",
+        "explanation": "PROVED: (1) Subgraph.mark_nodes flags exactly the chain from the given sample to its root (ghost path, "
+                       "membership maps) and nothing else, and terminates (decreases: the rank witness exported by fit's "
+                       "postcondition); (2) in SupervisedOPF.predict the sample passed to mark_nodes is the conqueror of the "
+                       "query (invariant conqueror == argmin witness of C03) for every query, so per query exactly the conqueror "
+                       "and its ancestors are flagged, on top of the flags present before - the statement then follows by "
+                       "induction over the queries (pencil step); a fresh fit leaves every flag IRRELEVANT (fit's "
+                       "postcondition); (3) SupervisedOPF.prune: every selection pass retains exactly the samples whose flag "
+                       "is not IRRELEVANT, in order, with their own labels; the final training arrays and the final model's "
+                       "nodes are rows g_map[0] < g_map[1] < ... of the original arrays (sub-multiset, labels intact). "
+                       "ASSUMED at prune's call sites: the row-construction clauses of fit / predict (see specs/prune.py). "
+                       "KNOWN FINDING (open): SupervisedOPF.learn raises TypeError as soon as a validation sample is "
+                       "misclassified (F5); its clauses (multiset conservation, best classifier kept) are therefore not "
+                       "checked beyond that witness. BOUNDED: relevance oracle and prune sub-multiset oracle on generated data.",
+        "trusted": COMMON_TRUST + GRAPH_TRUST,
+    },
 }
